@@ -506,5 +506,26 @@ theorem compton_energy_ge_backscatter (hE : 0 < E) :
 example : 100 / (1 + 2 * 100 / Hdr.MEC2) ≤ valueOf (Gen.ComptonEnergy T 100 7 Slot.empty) :=
   compton_energy_ge_backscatter T _ _ _ (by norm_num)
 
+/-- the Thomson differential cross section stays within `[r²/2, r²]` at every angle, the polarised one within
+`[0, r²]`; hence (`kn_le_thomson`) no Klein–Nishina differential value exceeds `r²` either -/
+theorem dcs_thoms_range :
+    Hdr.RE2 / 2 ≤ valueOf (Gen.DCS_Thoms T θ error) ∧ valueOf (Gen.DCS_Thoms T θ error) ≤ Hdr.RE2 := by
+  rw [value_DCS_Thoms, valueOf_ok, thomsV_real]
+  have h0 : 0 ≤ cos θ ^ 2 := sq_nonneg _
+  have h1 : cos θ ^ 2 ≤ 1 := by have := sin_sq_add_cos_sq θ; nlinarith [sq_nonneg (sin θ)]
+  have := RE2_pos
+  constructor <;> nlinarith
+
+theorem dcsp_thoms_le : valueOf (Gen.DCSP_Thoms T θ φ error) ≤ Hdr.RE2 := by
+  rw [value_DCSP_Thoms, valueOf_ok, thomsPV_real]
+  have h0 : 0 ≤ sin θ ^ 2 * cos φ ^ 2 := mul_nonneg (sq_nonneg _) (sq_nonneg _)
+  have := RE2_pos
+  nlinarith
+
+theorem dcs_kn_le_re2 (hE : 0 < E) : valueOf (Gen.DCS_KN T E θ error) ≤ Hdr.RE2 :=
+  (kn_le_thomson T E θ error hE).trans (dcs_thoms_range T θ error).2
+
+example : valueOf (Gen.DCS_KN T 1000 2 Slot.empty) ≤ Hdr.RE2 := dcs_kn_le_re2 T _ _ _ (by norm_num)
+
 end C12
 end Xrl
